@@ -533,21 +533,44 @@ def _fate(node, parent, stmt):
     if pk == "Let":
         if parent["pat"]["k"] == "Wild":
             return "let _"
+        if _ok_only(parent["pat"]):
+            return "if-let-ok-only"      # `let Ok(x) = call else { .. }`: the else block cannot see the error
         return "bound"
     if pk == "MCall" and parent["recv"] is node:
         if parent.get("fn") in SWALLOW:
             return "swallowed"
         return "adapted by %s" % parent["name"]
     if pk == "LetCond":
-        pat = parent["pat"]
-        if pat["k"] == "TupleStruct" and pat.get("ctor") == "core::result::Result::Ok":
+        if _ok_only(parent["pat"]):
             return "if-let-ok-only"
         return "matched"
     if pk == "Match":
+        for a in parent["arms"]:
+            pat = a["pat"]
+            if pat["k"] == "TupleStruct" and pat.get("ctor") == "core::result::Result::Err" and pat["pats"] and pat["pats"][0]["k"] == "Wild":
+                if not _arm_propagates(a["body"]):
+                    return "swallowed"
+            if pat["k"] == "Wild" and not _arm_propagates(a["body"]):
+                return "swallowed"
         return "matched"
     if pk in ("Block", "Expr", "If", "Async", "Closure"):
         return "value of enclosing expression"
     return "used by %s" % pk
+
+
+def _ok_only(pat):
+    while pat is not None and pat["k"] in ("RefPat",):
+        pat = pat["pat"]
+    return pat is not None and pat["k"] == "TupleStruct" and pat.get("ctor") == "core::result::Result::Ok"
+
+
+def _arm_propagates(body):
+    for n in walk(body):
+        if n["k"] == "Ret":
+            return True
+        if n["k"] == "Call" and n.get("fn") == "core::result::Result::Err":
+            return True
+    return False
 
 
 def r_no_unwrap(ctx):
